@@ -709,7 +709,9 @@ func allPairGates(res *Result, i int, b []byte) (gateInvalid, gateValid int) {
 	a1, b1 := pairGate(res, i, "cose", b, coseD, coseDV)
 	a2, b2 := pairGate(res, i, "cbor", b, psatoken.DecodeClaimsFromCBOR, psatoken.DecodeAndValidateClaimsFromCBOR)
 	a3, b3 := pairGate(res, i, "json", b, psatoken.DecodeClaimsFromJSON, psatoken.DecodeAndValidateClaimsFromJSON)
-	return a1 + a2 + a3, b1 + b2 + b3
+	// the deprecated names are decode-and-validate variants too
+	a4, b4 := pairGate(res, i, "json-deprecated-names", b, psatoken.DecodeUnvalidatedJSONClaims, psatoken.DecodeJSONClaims) //nolint:staticcheck
+	return a1 + a2 + a3 + a4, b1 + b2 + b3 + b4
 }
 
 // decodeGates evaluates C08's decode-and-validate twins on one byte string.
